@@ -761,3 +761,54 @@ def rule_annlist_capacity(ctx):
                     ctx.holds("LISTCAP", key, f.where(line), "the list handed to ANannlist is allocated for the ANnumann count (%s)" % ", ".join(cnt), nontrivial=True)
     ctx.floor("LISTCAP", 4, n, "(ANannlist calls outside the annotation interface)")
     return n
+
+
+def rule_listing_end_latched(ctx):
+    """LISTEND (C11): DFANgetfid/DFANgetfds walk the file labels with a saved "next reference".  When the probe for a further
+    element (`Hnextread`) fails there is no reference value that is guaranteed not to exist - "last + 1" may well be an element
+    stored earlier in the file - so the end of the listing is a fact of its own: the failing-probe branch sets a file-scope
+    flag, and every routine that starts a read from the saved reference (`isfirst ? WILDCARD : Next_.._ref`) tests such a flag
+    and leaves before its Hstartread.  Without the flag two labels stored in reverse reference order are returned alternately
+    for ever."""
+    from .facts import calls_in
+    prog = ctx.prog
+    n = 0
+    funcs = [f for f in prog.lib_funcs() if f.rel.endswith("hdf/src/dfan.c") and f.raw.get("ast")]
+    # flags set under a failing Hnextread
+    flags = set()
+    for f in funcs:
+        def vis(nd, st):
+            if nd[0] == "if" and nd[1] is not None and any(c[1] == "Hnextread" for c in calls_in(nd[1], True)):
+                def inner(k, s2):
+                    if k[0] == "s" and k[1] is not None:
+                        for x in walk(k[1], True):
+                            if x[0] == "asg" and x[1] == "=" and kind(strip(x[2])) == "var" and len(strip(x[2])) > 2 and strip(x[2])[2] == "g" and is_int(x[3]) and int_val(x[3]) != 0:
+                                flags.add(strip(x[2])[1])
+                    return True
+                ast_walk(nd[2], inner)
+            return True
+        ast_walk(f.raw["ast"], vis)
+    for f in funcs:
+        order = []
+        ast_walk(f.raw["ast"], lambda nd, st: (order.append(nd) if nd[0] in ("s", "if") and nd[1] is not None else None, True)[1])
+        cursor_read = False
+        guarded = False
+        for nd in order:
+            for x in walk(nd[1], True):
+                if x[0] == "cond" and any(y[0] == "var" and len(y) > 2 and y[2] == "g" and y[1].startswith("Next_") for y in walk(x, True)):
+                    cursor_read = True
+            if nd[0] == "if" and any(y[0] == "var" and y[1] in flags for y in walk(nd[1], True)):
+                from .rules_loops import _terminates
+                if _terminates(nd[2]) or (nd[3] is not None and _terminates(nd[3])) or any(k_[0] == "if" for k_ in [nd[3]] if k_):
+                    guarded = True
+            if cursor_read and any(c[1] == "Hstartread" for c in calls_in(nd[1], True)):
+                n += 1
+                key = "LISTEND:%s" % f.name
+                line = nd[-3] if isinstance(nd[-3], int) else f.line
+                if guarded:
+                    ctx.holds("LISTEND", key, f.where(line), "the read from the saved reference is preceded by a test of the end-of-listing flag (%s)" % ", ".join(sorted(flags)), nontrivial=True)
+                else:
+                    ctx.violated("LISTEND", key, f.where(line), "the read starts from the saved next-reference with no end-of-listing flag tested before it%s: after the last element the listing starts over whenever `last + 1` exists earlier in the file" % ("" if flags else " (no flag is set where the Hnextread probe fails)"))
+                break
+    ctx.floor("LISTEND", 2, n, "(DFAN routines that read from the saved next-reference)")
+    return n
